@@ -605,11 +605,14 @@ def translator_status(build_log):
     """harness/gen_rcache.py (run by common.regenerate on every check) regenerates coq/gen/RQueryGen.v and
     coq/gen/RCacheGen.v from /repo's source; when it aborts the files are poisoned and the C11_gen_* /
     C12_gen_* obligations (and with them the whole props file) stop compiling"""
-    m = re.search(r"TRANSLATE-ERROR: ([^\n]*)", build_log or "")
-    failed = "GENERATOR FAILED: gen_rcache.py" in (build_log or "") or (
-        m is not None and "gen_rcache" in (build_log or ""))
+    log = build_log or ""
+    failed = "GENERATOR FAILED: gen_rcache.py" in log
+    msg = None
+    if failed:
+        ms = re.findall(r"TRANSLATE-ERROR: ([^\n]*)", log[:log.index("GENERATOR FAILED: gen_rcache.py")])
+        msg = ms[-1] if ms else "generator exited non-zero"
     return {"script": "harness/gen_rcache.py", "outputs": ["coq/gen/RQueryGen.v", "coq/gen/RCacheGen.v"],
-            "status": "aborted" if failed else "ok", "message": m.group(1) if (m and failed) else None}
+            "status": "aborted" if failed else "ok", "message": msg}
 
 
 def main():
